@@ -15,6 +15,7 @@ def handlers : List (List String → Option String) := [
   Legacy.handleLeg,
   EncB.handleEncP,
   L2T.handleL2T,
+  C08.handleC08,
   World.handleHist,
   L2T.C03.handleSpec
 ]
